@@ -292,8 +292,11 @@ Definition vrel (v : pval) (w : cval) : Prop :=
   | _, _ => False
   end.
 
+(* a float value is kept in lowest terms (peval and ceval normalise with Qred) *)
+Definition qnormal (q : Q) : bool :=
+  let r := Qred q in (Qnum r =? Qnum q) && Pos.eqb (Qden r) (Qden q).
 Definition vfits (v : pval) : bool :=
-  match v with VInt z => fits z | VBool _ | VFloat _ | VStr _ => true | _ => false end.
+  match v with VInt z => fits z | VFloat q => qnormal q | VBool _ | VStr _ => true | _ => false end.
 Definition is_numv (v : pval) : bool := match v with VInt _ | VBool _ | VFloat _ => true | _ => false end.
 Definition is_intv (v : pval) : bool := match v with VInt _ | VBool _ => true | _ => false end.
 Definition is_floatv (v : pval) : bool := match v with VFloat _ => true | _ => false end.
@@ -438,7 +441,7 @@ Fixpoint expr_guard (G : tcx) (rho : env) (e : pexpr) {struct e} : bool :=
           else if text_eqb f n_int then
             expr_guard G rho a &&
             match pv rho a with
-            | Some (VStr s) => match infer G a with Some LString => res_fits (py_call n_int [VStr s]) | _ => false end
+            | Some (VStr s) => match infer G a with Some LString => wt G e && res_fits (py_call n_int [VStr s]) | _ => false end
             | Some x => is_numv x && match infer G a with Some LString | None => false | _ => true end
                         && res_fits (py_call n_int [x])
             | None => false
